@@ -16,14 +16,15 @@ pub fn run_h264(run: &mut Run, pkts: &[Pk], nt: bool) {
     let input = pkts.iter().map(pk_text).collect::<Vec<_>>().join(" ");
     let total: usize = pkts.iter().map(|p| p.payload.len()).sum();
     let ps = pkts.to_vec();
-    exec(run, "h264", &input, "H264Depacketizer::push", nt, Some((600, 4096 * pkts.len() as u64 + 4096, total as u64)), move || {
+    exec(run, "h264", &input, "H264Depacketizer::push", nt, Some((258, 1024 * pkts.len() as u64, total as u64)), move || {
         let mut d = H264Depacketizer::new();
         let mut out = vec![];
-        for p in &ps {
-            let mut h = RtpHeader::new(96, p.seq, p.ts, 77);
-            h.marker = p.marker;
-            let pkt = RtpPacket::new(h, p.payload.clone());
-            let samples = d.push(pkt, 90000, "127.0.0.1:9".parse().unwrap(), MediaKind::Video).expect("push returns Ok");
+        let pkts: Vec<RtpPacket> = ps.iter().map(|p| { let mut h = RtpHeader::new(96, p.seq, p.ts, 77); h.marker = p.marker; RtpPacket::new(h, p.payload.clone()) }).collect();
+        let mut results = Vec::with_capacity(pkts.len());
+        super::start_alloc();
+        for pkt in pkts { results.push(d.push(pkt, 90000, "127.0.0.1:9".parse().unwrap(), MediaKind::Video).expect("push returns Ok")); }
+        super::mark_alloc();
+        for samples in results {
             let s: Vec<String> = samples.iter().map(|s| match s {
                 MediaSample::Video(v) if v.raw_packet.as_ref().map_or(false, |r| r.payload.is_empty()) && v.data.is_empty() => format!("0/7/{}/2", v.rtp_timestamp),
                 MediaSample::Video(v) => format!("{}/{}/{}/{}", v.data.len(), fold(&v.data), v.rtp_timestamp, v.is_last_packet as u8),
@@ -84,11 +85,14 @@ impl LiveUdptl {
 pub fn run_udptl(run: &mut Run, live: &LiveUdptl, dgram: &[u8], nt: bool) {
     let d = dgram.to_vec();
     let l = std::panic::AssertUnwindSafe(live);
-    exec(run, "udptl", &hex(dgram), "UdtlTransport::recv", nt, Some((17, 4096, dgram.len() as u64)), move || {
+    exec(run, "udptl", &hex(dgram), "UdtlTransport::recv", nt, Some((17, 1400, dgram.len() as u64)), move || {
         l.rt.block_on(async {
             l.tx.send_to(&d, l.dst).await.expect("loopback send");
             let mut rb = rustrtc::UdtlReceiveBuffer::new();
-            match l.t.recv(&mut rb).await { Ok(None) => "ok ".to_string(), Ok(Some(p)) => format!("ok {},{}", p.len(), fold(&p)), Err(e) => format!("err {e:?}") }
+            super::start_alloc();
+            let r = l.t.recv(&mut rb).await;
+            super::mark_alloc();
+            match r { Ok(None) => "ok ".to_string(), Ok(Some(p)) => format!("ok {},{}", p.len(), fold(&p)), Err(e) => format!("err {e:?}") }
         })
     });
 }
